@@ -997,8 +997,9 @@ int EGLPNUM_TYPENAME_ILLlib_addrows (
 
 		lp->nrows = lp->O->nrows;
 		lp->ncols = lp->O->ncols;
-		if (B->rownorms_size < lp->O->nrows + num)
-			EGLPNUM_TYPENAME_EGlpNumReallocArray (&(B->rownorms), lp->O->nrows + num);
+		/* rownorms_size is not kept up to date everywhere: let the array's own
+		 * size header decide whether it has to grow */
+		EGLPNUM_TYPENAME_EGlpNumReallocArray (&(B->rownorms), lp->O->nrows + num);
 
 		ILL_SAFE_MALLOC (bcnt, num, int);
 		ILL_SAFE_MALLOC (bbeg, num, int);
@@ -1117,8 +1118,7 @@ int EGLPNUM_TYPENAME_ILLlib_addrows (
 			MESSAGE (__QS_SB_VERB, "Singular Basis found!");
 		*factorok = 1;
 
-		if (B->rownorms_size < lp->O->nrows)
-			EGLPNUM_TYPENAME_EGlpNumReallocArray (&(B->rownorms), lp->O->nrows);
+		EGLPNUM_TYPENAME_EGlpNumReallocArray (&(B->rownorms), lp->O->nrows);
 
 		ILL_SAFE_MALLOC (rindi, lp->O->nrows /* num */ , int);
 
@@ -4167,6 +4167,13 @@ int EGLPNUM_TYPENAME_ILLlib_getrownorms (
 /*
         QSlog("dual steepest edge norms not available");
 */
+		ILL_CLEANUP;
+	}
+	if (__EGlpNumArraySize (pinf->dsinfo.norms) < (size_t) nrows)
+	{
+		/* norms left over from a solve with fewer rows (the primal simplex does
+		 * not maintain them): not usable */
+		rval = 1;
 		ILL_CLEANUP;
 	}
 
